@@ -415,7 +415,15 @@ class DemoStorage(ConflictResolvingStorage):
         self._commit_lock.acquire()
 
         with self._lock:
-            self.changes.tpc_begin(transaction, *a, **k)
+            try:
+                self.changes.tpc_begin(transaction, *a, **k)
+            except:  # noqa: E722 do not use bare 'except'
+                # The delegate refused (e.g. over-long metadata).  We are not
+                # in a transaction, so tpc_abort would ignore the caller:
+                # undo the delegate's begin and release our commit lock here.
+                self.changes.tpc_abort(transaction)
+                self._commit_lock.release()
+                raise
             self._transaction = transaction
             self._stored_oids = set()
             del self._resolved[:]
